@@ -53,6 +53,12 @@ def execute(case):
             else:
                 seq.cutoff(7, 5)          # (an absolute-side change: the same absolute object lives on)
             line["in"] = P.raw_abs(seq)
+        if idx % 7 == 3:
+            # history: the sequence was padded to end in a short rest (as pad, split and bars leave it), so the absolute view is
+            # derived from a relative one and carries an end marker shortly after the last note
+            last = max([m["t"] for m in line["in"]] + [0])
+            seq.pad(last + (1, 2, 5)[idx % 3])
+            line["in"] = P.raw_abs(seq)
         perturb_returned_defaults()
         sigs = [(m["ty"], m["n"], m["d"], m["k"]) for m in line["in"] if m["ty"] in ("ts", "ks")]
         if idx % 13 == 12 and len(set(sigs)) == len(sigs):      # (normalise would drop a signature repeating the one in force)
